@@ -98,6 +98,17 @@ CHECKS = {
               "time steps with spikes on window boundaries and values exactly at the gate; sign / scale / zero-padding relation events."),
         design_ref="DESIGN.md section 4, C09",
         note=LEVEL_NOTE_N + "; standardised CAV only for dt with 1/dt integral in binary64 and records >= 2 s"),
+    "C13": dict(
+        engine="PeakSeries",
+        technique="TLA+ conservation-law clauses over quantities accumulated from the input (total variation, final direction, C11 peak set) and power-law definitions over the reported switched peaks; TLC exhaustive on an integer lattice with the implementation in lock-step; TLC trace validation with relation events",
+        category="model_checking",
+        text=("MC_PeakSeries: every non-constant series over {-2..2} to length 6 (quick) / 7 (thorough) and its +4 / -3 shifts, int / float "
+              "/ list containers: delta support within the C11 set, sum|delta| = TV, |sum delta| = |end - start|, pseudo-cyclic sum, shift "
+              "invariance (exact integer identities), power-law finals and series for b in {1, 1/2}; the inverse law holds of the model. "
+              "Trace_PeakSeries: random series (plateau starts, offsets, zero touch-downs) to 5000 samples; power law with b in (0.05,1], "
+              "cut_off in [0,0.1], scalar and array b: definition, inverse, homogeneity, joint scaling, 2^b and geometric-mean laws."),
+        design_ref="DESIGN.md section 4, C13",
+        note=LEVEL_NOTE_N + "; joint scaling with alpha = +-2^k"),
 }
 
 NOT_YET = {}
